@@ -101,11 +101,12 @@ type world struct {
 	codes   map[string]int
 	served  map[string]bool
 	samples *int
+	kv      string // how the storage answers absent keys
 }
 
 func main() {
 	r := ev.Start("C25", "exploration")
-	r.SetRule("every method of every service in tunnel.proto and keyless.proto (from the protobuf descriptors; cross-checked against the Go interfaces protocol.TunnelService / KeylessService) x caller {no certificate (claiming a registered identity), certificate with malformed subject, fresh v2 certificate never registered, fresh v1 certificate never registered} x bodies {empty, effective protobuf, effective JSON, seeded garbage, oversized} through the real twirp servers; plus every method at handler level without any delegation, plus a registered control caller per method (shows that the effective body does take effect once authenticated). 'Effective' = the request would change or reveal state if only authentication were skipped: the caller's own token prefix already holds the hostname, routes exist, the custom hostname is bound to the caller, the proof of work is valid and fresh, the CNAME answer is right. Distinct = (method, caller class, body kind); non-trivial = method is not exempt (Ping, RegisterIdentity).")
+	r.SetRule("every method of every service in tunnel.proto and keyless.proto (from the protobuf descriptors; cross-checked against the Go interfaces protocol.TunnelService / KeylessService) x caller {no certificate (claiming a registered identity), certificate with malformed subject, fresh v2 certificate never registered, fresh v1 certificate never registered} x bodies {empty, effective protobuf, effective JSON, seeded garbage, oversized} x DHT storage answering absent keys with {nil, empty non-nil value} through the real twirp servers; plus every method at handler level without any delegation, plus a registered control caller per method (shows that the effective body does take effect once authenticated). 'Effective' = the request would change or reveal state if only authentication were skipped: the caller's own token prefix already holds the hostname, routes exist, the custom hostname is bound to the caller, the proof of work is valid and fresh, the CNAME answer is right. Distinct = (storage variant, method, caller class, body kind); non-trivial = method is not exempt (Ping, RegisterIdentity).")
 	r.Assume("a refusal is any response other than HTTP 200 (the twirp code is recorded: unauthenticated for the listener path, internal for the missing delegation)")
 	r.Assume("the per-IP rate limiter is kept out of the way by giving every connection its own remote IP; a 429 would be reported as inconclusive")
 	r.Assume("'changes nothing in the DHT' = no mutating call (Put/Delete/PrefixAppend/PrefixRemove/Acquire/Renew/Release/Import/RemoveKeys) reaches the ring's storage between request and response, and the full key dump is identical")
@@ -152,9 +153,12 @@ func main() {
 		seeds[i] = rng.Int63()
 	}
 	// one server (ring, router, twirp) per method, methods in parallel
-	tunlab.Parallel(len(ms), 12, func(i int) {
+	// every method runs in two worlds: storage answering absent keys with nil, and
+	// with an empty non-nil value (both mean "absent" under the KV contract)
+	tunlab.Parallel(2*len(ms), 12, func(j int) {
+		i, emptyNonNil := j/2, j%2 == 1
 		m := ms[i]
-		lab, err := tunlab.NewLab(tunlab.Options{Retry: true})
+		lab, err := tunlab.NewLab(tunlab.Options{Retry: true, EmptyNonNil: emptyNonNil})
 		if err != nil {
 			panic(err)
 		}
@@ -162,8 +166,8 @@ func main() {
 		lab.Server.MustRegister(context.Background())
 		lab.Attach()
 		lab.Certs.Fn = func(string) (*tls.Certificate, error) { return leaf, nil }
-		w := &world{r: r, lab: lab, ca: ca, leaf: leaf, mu: &mu, codes: codes, served: served, samples: &nSamples}
-		w.runMethod(m, rand.New(rand.NewSource(seeds[i])), garbagePerCell, r.Pick(2, 12))
+		w := &world{r: r, lab: lab, ca: ca, leaf: leaf, mu: &mu, codes: codes, served: served, samples: &nSamples, kv: map[bool]string{false: "kv-nil", true: "kv-empty"}[emptyNonNil]}
+		w.runMethod(m, rand.New(rand.NewSource(seeds[i]+int64(j%2))), garbagePerCell, r.Pick(1, 6))
 	})
 	cs := map[string]int{}
 	for k, v := range codes {
@@ -172,8 +176,10 @@ func main() {
 	r.Extra("refusal_codes", cs)
 	var notServed []string
 	for _, m := range ms {
-		if !served[m.Name] {
-			notServed = append(notServed, m.Name)
+		for _, kv := range []string{"kv-nil", "kv-empty"} {
+			if !served[kv+"/"+m.Name] {
+				notServed = append(notServed, kv+"/"+m.Name)
+			}
 		}
 	}
 	sort.Strings(notServed)
@@ -441,7 +447,7 @@ func (w *world) runMethod(m method, rng *rand.Rand, garbagePerCell, rounds int) 
 	}
 	for ci, c := range cells {
 		for ki, kind := range kinds {
-			name := fmt.Sprintf("%s/%s/%s#%d.%d", m.Name, c.c.Class, kind, ci, ki)
+			name := fmt.Sprintf("%s/%s/%s/%s#%d.%d", w.kv, m.Name, c.c.Class, kind, ci, ki)
 			if !w.r.WantCase(name) {
 				continue
 			}
@@ -461,7 +467,7 @@ func (w *world) runMethod(m method, rng *rand.Rand, garbagePerCell, rounds int) 
 			}
 			sig := ""
 			if !exempt[m.Name] {
-				sig = fmt.Sprintf("%s/%s/%s", m.Name, c.c.Class, kind)
+				sig = fmt.Sprintf("%s/%s/%s/%s", w.kv, m.Name, c.c.Class, kind)
 			}
 			w.r.Case(sig)
 			if pr != nil && !pr.Fresh() {
@@ -477,7 +483,7 @@ func (w *world) runMethod(m method, rng *rand.Rand, garbagePerCell, rounds int) 
 			}
 			w.mu.Lock()
 			if !exempt[m.Name] {
-				w.codes[fmt.Sprintf("%s:%d/%s", c.c.Class, st, code)]++
+				w.codes[fmt.Sprintf("%s/%s:%d/%s", w.kv, c.c.Class, st, code)]++
 			}
 			if *w.samples < 5 && kind == "effective" && !exempt[m.Name] && (m.Name == "PublishTunnel" || m.Name == "AcmeValidate" || m.Name == "Sign" || m.Name == "ReleaseTunnel" || m.Name == "GenerateHostname") && c.c.Class == "unregistered-v2" {
 				*w.samples++
@@ -501,7 +507,7 @@ func (w *world) runMethod(m method, rng *rand.Rand, garbagePerCell, rounds int) 
 	// ---- no delegation at all: handler level, bare context
 	sv := reflect.ValueOf(w.lab.Server)
 	for _, kind := range []string{"empty", "effective"} {
-		name := fmt.Sprintf("%s/no-delegation/%s", m.Name, kind)
+		name := fmt.Sprintf("%s/%s/no-delegation/%s", w.kv, m.Name, kind)
 		if !w.r.WantCase(name) {
 			continue
 		}
@@ -532,7 +538,7 @@ func (w *world) runMethod(m method, rng *rand.Rand, garbagePerCell, rounds int) 
 		}
 		sig := ""
 		if !exempt[m.Name] {
-			sig = fmt.Sprintf("%s/no-delegation/%s", m.Name, kind)
+			sig = fmt.Sprintf("%s/%s/no-delegation/%s", w.kv, m.Name, kind)
 		}
 		w.r.Case(sig)
 		if exempt[m.Name] {
@@ -547,7 +553,7 @@ func (w *world) runMethod(m method, rng *rand.Rand, garbagePerCell, rounds int) 
 	}
 
 	// ---- control: the registered client with the effective body is served
-	name := fmt.Sprintf("%s/registered/effective", m.Name)
+	name := fmt.Sprintf("%s/%s/registered/effective", w.kv, m.Name)
 	if w.r.WantCase(name) {
 		okServed := false
 		var last string
@@ -567,16 +573,16 @@ func (w *world) runMethod(m method, rng *rand.Rand, garbagePerCell, rounds int) 
 				break
 			}
 		}
-		w.r.Case(fmt.Sprintf("%s/registered/effective", m.Name))
+		w.r.Case(fmt.Sprintf("%s/%s/registered/effective", w.kv, m.Name))
 		w.mu.Lock()
-		w.served[m.Name] = okServed
+		w.served[w.kv+"/"+m.Name] = okServed
 		if !okServed {
 			w.codes["control-not-served:"+m.Name+":"+last]++
 		}
 		w.mu.Unlock()
 	} else {
 		w.mu.Lock()
-		w.served[m.Name] = true
+		w.served[w.kv+"/"+m.Name] = true
 		w.mu.Unlock()
 	}
 }
